@@ -26,15 +26,15 @@ let go_handle op args =
   | "go_varint", [v] -> let v = z_of_hex v in [hex_of_zs (go_AppendVarint nilz v); hex_of_z (go_SizeVarint v)]
   | "go_cvarint", [b] ->
       (match go_ConsumeVarint (zs_of_hex b) with
-       | GoInt.Val (v, n) -> lenres n (fun n -> ["ok"; hex_of_z v; n]) | GoInt.Panic -> ["panic"])
+       | GoInt.Val (v, n) -> lenres n (fun n -> ["ok"; hex_of_z v; n]) | GoInt.Panic -> ["panic"] | GoInt.Fuel -> ["fuel"])
   | "go_fixed32", [v] -> [hex_of_zs (go_AppendFixed32 nilz (z_of_hex v))]
   | "go_fixed64", [v] -> [hex_of_zs (go_AppendFixed64 nilz (z_of_hex v))]
   | "go_cfixed32", [b] ->
       (match go_ConsumeFixed32 (zs_of_hex b) with
-       | GoInt.Val (v, n) -> lenres n (fun n -> ["ok"; hex_of_z v; n]) | GoInt.Panic -> ["panic"])
+       | GoInt.Val (v, n) -> lenres n (fun n -> ["ok"; hex_of_z v; n]) | GoInt.Panic -> ["panic"] | GoInt.Fuel -> ["fuel"])
   | "go_cfixed64", [b] ->
       (match go_ConsumeFixed64 (zs_of_hex b) with
-       | GoInt.Val (v, n) -> lenres n (fun n -> ["ok"; hex_of_z v; n]) | GoInt.Panic -> ["panic"])
+       | GoInt.Val (v, n) -> lenres n (fun n -> ["ok"; hex_of_z v; n]) | GoInt.Panic -> ["panic"] | GoInt.Fuel -> ["fuel"])
   | "go_zz", [x] -> [hex_of_z (go_EncodeZigZag (z_of_hex x))]
   | "go_unzz", [n] -> [hex_of_z (go_DecodeZigZag (z_of_hex n))]
   | "go_bool", [b] -> [hex_of_z (go_EncodeBool (bool_of_tok b))]
@@ -45,13 +45,25 @@ let go_handle op args =
       [hex_of_zs (go_AppendTag nilz num (z_of_hex typ)); hex_of_z (go_SizeTag num)]
   | "go_ctag", [b] ->
       (match go_ConsumeTag (zs_of_hex b) with
-       | GoInt.Val ((num, typ), n) -> lenres n (fun n -> ["ok"; hex_of_z num; hex_of_z typ; n]) | GoInt.Panic -> ["panic"])
+       | GoInt.Val ((num, typ), n) -> lenres n (fun n -> ["ok"; hex_of_z num; hex_of_z typ; n]) | GoInt.Panic -> ["panic"] | GoInt.Fuel -> ["fuel"])
   | "go_bytes", [v] -> let v = zs_of_hex v in [hex_of_zs (go_AppendBytes nilz v); hex_of_z (go_SizeBytes (zlen v))]
   | "go_cbytes", [b] ->
       (match go_ConsumeBytes (zs_of_hex b) with
-       | GoInt.Val (v, n) -> lenres n (fun n -> ["ok"; hex_of_zs v; n]) | GoInt.Panic -> ["panic"])
+       | GoInt.Val (v, n) -> lenres n (fun n -> ["ok"; hex_of_zs v; n]) | GoInt.Panic -> ["panic"] | GoInt.Fuel -> ["fuel"])
   | "go_agroup", [num; v] -> let num = z_of_hex num and v = zs_of_hex v in
       [hex_of_zs (go_AppendGroup nilz num v); hex_of_z (go_SizeGroup num (zlen v))]
+  (* the functions with loops / recursion (fuel-indexed fixpoints in Gen/WireGo.v) *)
+  | "go_cfv", [num; typ; b] ->
+      (match go_ConsumeFieldValue (z_of_hex num) (z_of_hex typ) (zs_of_hex b) with
+       | GoInt.Val n -> lenres n (fun n -> ["ok"; n]) | GoInt.Panic -> ["panic"] | GoInt.Fuel -> ["fuel"])
+  | "go_cfield", [b] ->
+      (match go_ConsumeField (zs_of_hex b) with
+       | GoInt.Val ((num, typ), n) -> lenres n (fun n -> ["ok"; hex_of_z num; hex_of_z typ; n])
+       | GoInt.Panic -> ["panic"] | GoInt.Fuel -> ["fuel"])
+  | "go_cgroup", [num; b] ->
+      (match go_ConsumeGroup (z_of_hex num) (zs_of_hex b) with
+       | GoInt.Val (v, n) -> lenres n (fun n -> ["ok"; hex_of_zs v; n])
+       | GoInt.Panic -> ["panic"] | GoInt.Fuel -> ["fuel"])
   | _ -> failwith ("wire: unknown op " ^ op)
 
 let handle op args =
